@@ -1,0 +1,61 @@
+//go:build verif
+
+// Verification contracts for member expiry in the consumer-group coordinator (pkg/broker/coordinator.go);
+// comment-only, read by /verif/govc. Time: a time.Time value denotes an instant (integer nanoseconds, see
+// instant(t)); time.Time.Sub saturates at the int64 range exactly as the library does.
+// Shared definitions (groupOK, groupInv, coordOK, ...) are in zz_verif_contracts_c13.go.
+
+package broker
+
+// session timeout in force for a member (0 means the 30 s default)
+//@ spec func sessionOf(m *memberState) int = ite(m.sessionTimeout == 0, 30000000000, m.sessionTimeout)
+// what now.Sub(m.lastHeartbeat) returns
+//@ spec func sinceHeartbeat(m *memberState, now time.Time) int = let d = instant(now) - instant(m.lastHeartbeat) in ite(d > 9223372036854775807, 9223372036854775807, ite(d < -9223372036854775808, -9223372036854775808, d))
+//@ spec func expired(m *memberState, now time.Time) bool = sinceHeartbeat(m, now) > sessionOf(m)
+// the rebalance deadline is set and has been reached
+//@ spec func deadlinePassed(s *groupState, now time.Time) bool = instant(s.rebalanceDeadline) != zeroInstant() && instant(now) >= instant(s.rebalanceDeadline)
+
+// removeExpiredMembers(now): removes exactly the members whose session has lapsed at `now`, together with their
+// assignments; reports whether anything was removed; clears the leader id if the leader went; touches no other group.
+//@ func (s *groupState) removeExpiredMembers
+//@   opaque_strings
+//@   merge_branches
+//@   requires groupOK(s)
+//@   ensures [C43.expired_removed_exactly] forall k string :: has(s.members, k) == (old(has(s.members, k)) && !expired(mapval(s.members, k), now))
+//@   ensures [C43.expiry_reported] result == (exists k string :: old(has(s.members, k)) && !has(s.members, k))
+//@   ensures [C43.expiry_drops_assignment] forall k string :: has(s.assignments, k) == (old(has(s.assignments, k)) && !(old(has(s.members, k)) && !has(s.members, k)))
+//@   ensures [C43.expiry_keeps_records] keepsField("memberState", "*") && (forall k string :: mapval(s.members, k) == old(mapval(s.members, k)) && mapval(s.assignments, k) == old(mapval(s.assignments, k)))
+//@   ensures [C43.expiry_leader] ite(old(has(s.members, s.leaderID)) && !has(s.members, old(s.leaderID)), s.leaderID == "", s.leaderID == old(s.leaderID))
+//@   ensures [C43.expiry_phase] s.state == old(s.state) || (len(s.members) == 0 && s.state == groupStateEmpty)
+//@   ensures [C14.expiry_keeps_group_invariant] old(groupInv(s)) ==> groupInv(s)
+//@   ensures groupOK(s) && s.members == old(s.members) && s.assignments == old(s.assignments) && s.generationID == old(s.generationID) && s.rebalanceDeadline == old(s.rebalanceDeadline) && s.rebalanceTimeout == old(s.rebalanceTimeout)
+//@   ensures keepsMap("string", "*memberState", s.members) && keepsMap("string", "[]assignmentTopic", s.assignments) && (forall g *groupState :: g != s ==> g.leaderID == old(g.leaderID) && g.state == old(g.state))
+//@   loop 1 invariant forall k string :: has(s.members, k) == (old(has(s.members, k)) && !(seen(1, k) && expired(mapval(s.members, k), now)))
+//@   loop 1 invariant forall k string :: has(s.assignments, k) == (old(has(s.assignments, k)) && !(old(has(s.members, k)) && !has(s.members, k)))
+//@   loop 1 invariant forall k string :: mapval(s.members, k) == old(mapval(s.members, k)) && mapval(s.assignments, k) == old(mapval(s.assignments, k))
+//@   loop 1 invariant changed == (exists k string :: old(has(s.members, k)) && !has(s.members, k))
+//@   loop 1 invariant ite(old(has(s.members, s.leaderID)) && !has(s.members, old(s.leaderID)), s.leaderID == "", s.leaderID == old(s.leaderID))
+//@   loop 1 invariant keepsMap("string", "*memberState", s.members) && keepsMap("string", "[]assignmentTopic", s.assignments) && (forall g *groupState :: g != s ==> g.leaderID == old(g.leaderID))
+
+// dropRebalanceLaggers(now): before the rebalance deadline (or with no deadline) nothing happens; from the deadline
+// on, exactly the members that have not rejoined the current generation are removed.
+//@ func (s *groupState) dropRebalanceLaggers
+//@   opaque_strings
+//@   merge_branches
+//@   requires groupOK(s)
+//@   ensures [C43.laggers_only_after_deadline] !deadlinePassed(s, now) ==> !result && keepsMap("string", "*memberState") && keepsMap("string", "[]assignmentTopic") && s.leaderID == old(s.leaderID) && s.state == old(s.state)
+//@   ensures [C43.laggers_removed_exactly] deadlinePassed(s, now) ==> forall k string :: has(s.members, k) == (old(has(s.members, k)) && mapval(s.members, k).joinGeneration == s.generationID)
+//@   ensures [C43.laggers_reported] result == (exists k string :: old(has(s.members, k)) && !has(s.members, k))
+//@   ensures [C43.laggers_drop_assignment] forall k string :: has(s.assignments, k) == (old(has(s.assignments, k)) && !(old(has(s.members, k)) && !has(s.members, k)))
+//@   ensures [C43.laggers_keep_records] keepsField("memberState", "*") && (forall k string :: mapval(s.members, k) == old(mapval(s.members, k)) && mapval(s.assignments, k) == old(mapval(s.assignments, k)))
+//@   ensures [C43.laggers_leader] ite(old(has(s.members, s.leaderID)) && !has(s.members, old(s.leaderID)), s.leaderID == "", s.leaderID == old(s.leaderID))
+//@   ensures [C43.laggers_phase] s.state == old(s.state) || (len(s.members) == 0 && s.state == groupStateEmpty)
+//@   ensures [C14.laggers_keep_group_invariant] old(groupInv(s)) ==> groupInv(s)
+//@   ensures groupOK(s) && s.members == old(s.members) && s.assignments == old(s.assignments) && s.generationID == old(s.generationID) && s.rebalanceDeadline == old(s.rebalanceDeadline) && s.rebalanceTimeout == old(s.rebalanceTimeout)
+//@   ensures keepsMap("string", "*memberState", s.members) && keepsMap("string", "[]assignmentTopic", s.assignments) && (forall g *groupState :: g != s ==> g.leaderID == old(g.leaderID) && g.state == old(g.state))
+//@   loop 1 invariant forall k string :: has(s.members, k) == (old(has(s.members, k)) && !(seen(1, k) && mapval(s.members, k).joinGeneration != s.generationID))
+//@   loop 1 invariant forall k string :: has(s.assignments, k) == (old(has(s.assignments, k)) && !(old(has(s.members, k)) && !has(s.members, k)))
+//@   loop 1 invariant forall k string :: mapval(s.members, k) == old(mapval(s.members, k)) && mapval(s.assignments, k) == old(mapval(s.assignments, k))
+//@   loop 1 invariant changed == (exists k string :: old(has(s.members, k)) && !has(s.members, k))
+//@   loop 1 invariant ite(old(has(s.members, s.leaderID)) && !has(s.members, old(s.leaderID)), s.leaderID == "", s.leaderID == old(s.leaderID))
+//@   loop 1 invariant keepsMap("string", "*memberState", s.members) && keepsMap("string", "[]assignmentTopic", s.assignments) && (forall g *groupState :: g != s ==> g.leaderID == old(g.leaderID))
